@@ -84,6 +84,10 @@ pub struct LayoutCfg {
     /// entries per sector with no free sector: the first allocation afterwards appends a FAT sector whose own
     /// cell lies in the spare one
     pub spare_fat: bool,
+    /// at least this many FAT sectors (the additional ones all FREE): 236 in a version-3 file fills the 109 header
+    /// slots and the first DIFAT sector exactly, so that the next FAT sector the library appends needs a second
+    /// DIFAT sector
+    pub min_fat: usize,
 }
 
 fn le32(b: &mut [u8], off: usize, v: u32) {
@@ -185,6 +189,11 @@ pub fn build(root: &Node, cfg: &LayoutCfg, rng: &mut Rng) -> Vec<u8> {
             break;
         }
         n_fat = need;
+    }
+    if cfg.min_fat > n_fat && !cfg.wrap_to_zero {
+        n_fat = cfg.min_fat;
+        n_difat = if n_fat > 109 { (n_fat - 109 + (epsec - 1) - 1) / (epsec - 1) } else { 0 };
+        total = body + n_fat + n_difat;
     }
     if spare && n_fat < 100 {
         // the spare FAT sector is a sector of the file too
